@@ -6,9 +6,147 @@ package queue
 // ---- C16: conversion for persistence and failure reports ----
 //@ func toSMTPErr
 //@   prop C16 C01 C18
-//@   modifies *
 //@   ensures err == nil ==> result == nil
 //@   ensures err != nil ==> result != nil
 //@   ensures err != nil && annAgrees(err) ==> coherent(result.Code, result.EnhancedCode) && (result.Code/100 == 4 || result.Code/100 == 5)
 //@   ensures err != nil && annAgrees(err) && !isType(err, "*gosmtp.SMTPError") ==> (result.Code/100 == 4) == tempOrUnspec(err)
 //@   ensures err != nil && !isType(err, "*gosmtp.SMTPError") ==> result.EnhancedCode[0] != 0
+
+// ---- C01: one delivery attempt ----
+//@ import module "github.com/foxcpp/maddy/framework/module"
+// A recorded status is never nil (SetStatus ignores nil, deliver records only errors it received).
+//@ pure func errsWF(m map[string]error) bool = m != nil && (forall r string :: has(m, r) ==> m[r] != nil)
+//@ func (*partialError).SetStatus
+//@   prop C01 C09
+//@   requires pe != nil && pe.Errs != nil && pe.statusLock != nil
+//@   modifies mapOf(pe.Errs), sync.Mutex.state, sync.Mutex.sema
+//@   ensures err != nil ==> has(pe.Errs, rcptTo) && pe.Errs[rcptTo] == err
+//@   ensures err == nil ==> has(pe.Errs, rcptTo) == old(has(pe.Errs, rcptTo)) && pe.Errs[rcptTo] == old(pe.Errs[rcptTo])
+//@   ensures forall r string :: r != rcptTo ==> has(pe.Errs, r) == old(has(pe.Errs, r)) && pe.Errs[r] == old(pe.Errs[r])
+
+// What deliver may assume about a per-recipient body stage given that the collector is its own partialError (whose
+// SetStatus is under contract above) and that the target keeps the StatusCollector protocol (keys are addresses
+// accepted by AddRcpt in this transaction; the in-tree targets are held to it under C09): statuses of other
+// addresses are untouched and no nil status is recorded.
+//@ extern func (*Queue).deliver#BodyNonAtomic$call(d module.PartialDelivery, ctx context.Context, c module.StatusCollector, header textproto.Header, body buffer.Buffer)
+//@   requires gOpen[refOf(d)]
+//@   requires c == iface(&perr)
+//@   modifies mapOf(perr.Errs)
+//@   ensures forall r string :: !gAcc[refOf(d)][r] ==> has(perr.Errs, r) == old(has(perr.Errs, r)) && perr.Errs[r] == old(perr.Errs[r])
+//@   ensures old(errsWF(perr.Errs)) ==> errsWF(perr.Errs)
+//@   ensures forall r string :: old(has(perr.Errs, r)) ==> has(perr.Errs, r)
+
+//@ func (*Queue).deliver$1
+//@   prop C01
+//@   modifies mapOf(perr.Errs)
+//@   requires perr.Errs != nil
+//@   ensures forall k int :: 0 <= k && k < len(acceptedRcpts) ==> has(perr.Errs, acceptedRcpts[k]) && perr.Errs[acceptedRcpts[k]] == err
+//@   ensures forall r string :: old(has(perr.Errs, r)) ==> has(perr.Errs, r)
+//@   ensures forall r string :: has(perr.Errs, r) ==> perr.Errs[r] == err || (old(has(perr.Errs, r)) && perr.Errs[r] == old(perr.Errs[r]))
+//@   loop 0 invariant forall k int :: 0 <= k && k <= rangeindex ==> has(perr.Errs, acceptedRcpts[k]) && perr.Errs[acceptedRcpts[k]] == err
+//@   loop 0 invariant forall r string :: old(has(perr.Errs, r)) ==> has(perr.Errs, r)
+//@   loop 0 invariant forall r string :: has(perr.Errs, r) ==> perr.Errs[r] == err || (old(has(perr.Errs, r)) && perr.Errs[r] == old(perr.Errs[r]))
+
+// deliver: the delivery opened on the target is closed exactly once on every path; a recipient of meta.To without a
+// recorded error was accepted by the target, the body stage reported no error and Commit returned nil.
+//@ pure func dlvOpen(d module.Delivery) bool = d != nil && !old(gOpen)[refOf(d)] && gOpen == store(old(gOpen), refOf(d), true)
+//@ func (*Queue).deliver
+//@   splitreturns
+//@   prop C01
+//@   requires q != nil && meta != nil && meta.MsgMeta != nil && q.Target != nil
+//@   modifies gOpen, gAcc, gBodyErr, gCommitted
+//@   ensures gOpen == old(gOpen)
+//@   ensures errsWF(result.Errs)
+//@   ensures forall k int :: 0 <= k && k < len(old(meta.To)) && !has(result.Errs, old(meta.To)[k]) ==> gAcc[refOf(delivery)][old(meta.To)[k]] && gBodyErr[refOf(delivery)] == nil && gCommitted[refOf(delivery)]
+// A permanent failure reported for a recipient by the body stage stays permanent when Commit fails afterwards
+// (otherwise the recipient would be re-attempted after a permanent failure).
+//@   label preCommit before (module.Delivery).Commit
+// Commit is only called when some accepted recipient has no failure so far (never after the body stage failed for
+// everybody: those recipients are reported or retried, so the transaction must not also be committed).
+//@   assert-call (module.Delivery).Commit : exists j int :: 0 <= j && j < len(acceptedRcpts) && !has(perr.Errs, acceptedRcpts[j])
+//@   ensures passed(preCommit) ==> (forall r string :: at(preCommit, has(perr.Errs, r)) && !tempOrUnspec(at(preCommit, perr.Errs[r])) ==> has(result.Errs, r) && !tempOrUnspec(result.Errs[r]))
+//@   loop 0 invariant errsWF(perr.Errs) && gOpen == old(gOpen) && err != nil && meta.To == old(meta.To)
+//@   loop 0 invariant forall k int :: 0 <= k && k <= rangeindex ==> has(perr.Errs, meta.To[k])
+//@   loop 1 invariant errsWF(perr.Errs) && dlvOpen(delivery) && meta.To == old(meta.To)
+//@   loop 1 invariant forall k int :: 0 <= k && k < len(acceptedRcpts) ==> gAcc[refOf(delivery)][acceptedRcpts[k]]
+//@   loop 1 invariant forall k int :: 0 <= k && k <= rangeindex && !has(perr.Errs, meta.To[k]) ==> (exists j int :: 0 <= j && j < len(acceptedRcpts) && acceptedRcpts[j] == meta.To[k])
+//@   loop 1 invariant gBodyErr[refOf(delivery)] == nil && !gCommitted[refOf(delivery)]
+//@   loop 2 invariant errsWF(perr.Errs) && dlvOpen(delivery)
+//@   loop 3 invariant errsWF(perr.Errs) && gOpen == old(gOpen) && err != nil
+//@   loop 3 invariant forall r string :: at(preCommit, has(perr.Errs, r)) ==> has(perr.Errs, r) && perr.Errs[r] == at(preCommit, perr.Errs[r])
+//@   loop 3 invariant forall j int :: 0 <= j && j <= rangeindex ==> has(perr.Errs, acceptedRcpts[j])
+//@   loop 2 invariant !allFailed ==> (exists j int :: 0 <= j && j <= rangeindex && !has(perr.Errs, acceptedRcpts[j]))
+//@   loop 2 invariant allFailed ==> (forall j int :: 0 <= j && j <= rangeindex ==> has(perr.Errs, acceptedRcpts[j]))
+
+// ---- C01: classification of the recipients after an attempt ----
+// Ghost accounting of what an attempt hands on: failure reports requested (count and the list of the last request),
+// spool removals, metadata writes, and scheduled retries. The functions below are held to the counters at their
+// call sites (trusted-ensures: ghost definitions); their bodies are under contract for C18 / C02.
+//@ ghost var gDSNCalls int
+//@ ghost var gDSNRcpts []string
+//@ ghost var gRemoved int
+//@ ghost var gMetaWrites int
+//@ ghost var gScheduled int
+//@ func (*TimeWheel).Add
+//@   trusted
+//@   modifies gScheduled
+//@   ensures gScheduled == old(gScheduled) + 1
+//@ func (*Queue).removeFromDisk
+//@   prop C02
+//@   modifies gRemoved
+//@   trusted-ensures gRemoved == old(gRemoved) + 1
+//@ func (*Queue).updateMetadataOnDisk
+//@   prop C02 C10
+//@   requires q != nil && meta != nil && meta.MsgMeta != nil
+//@   modifies gMetaWrites
+//@   trusted-ensures gMetaWrites == old(gMetaWrites) + 1
+//@ func (*Queue).emitDSN
+//@   prop C18
+//@   requires q != nil && meta != nil && meta.MsgMeta != nil && meta.RcptErrs != nil
+//@   modifies gDSNCalls, gDSNRcpts, gOpen, gAcc, gBodyErr, gCommitted
+//@   trusted-ensures gDSNCalls == old(gDSNCalls) + 1 && gDSNRcpts == failedRcpts
+
+// A recipient is retried iff the attempt recorded an error for it that is temporary or unclassified and the
+// attempt bound is not reached; it fails terminally iff an error was recorded and it is not retried.
+//@ pure func retryable(e error, tries int, max int) bool = tempOrUnspec(e) && tries + 1 < max
+// tc: Go's reading of a counter map (0 for a missing key or a nil map).
+//@ pure func tc(m map[string]int, r string) int = has(m, r) ? m[r] : 0
+// tryDelivery: (a) every recipient kept for the next attempt had a retryable failure in this attempt (never after
+// success or a permanent failure) and stays below max_tries, its attempt counter is incremented; (b) no recipient
+// with a retryable failure is dropped; (c) the recipients handed to emitDSN are exactly those with a terminal
+// failure, emitDSN is called once iff there is one, their last error is stored;
+// (d) the message is removed from the spool iff nothing is left to retry; otherwise the metadata is persisted before
+// the single retry is scheduled. Assumes distinct recipients in meta.To (the statement speaks of distinct recipients).
+//@ pure func isRetry(errs map[string]error, r string, tries int, max int) bool = has(errs, r) && retryable(errs[r], tries, max)
+//@ pure func isFail(errs map[string]error, r string, tries int, max int) bool = has(errs, r) && !retryable(errs[r], tries, max)
+//@ func (*Queue).tryDelivery
+//@   prop C01
+//@   requires q != nil && q.wheel != nil && q.Target != nil && meta != nil && meta.MsgMeta != nil && meta.RcptErrs != nil
+//@   requires forall i int, j int :: 0 <= i && i < j && j < len(meta.To) ==> meta.To[i] != meta.To[j]
+//@   requires forall j int :: 0 <= j && j < len(meta.To) ==> 0 <= tc(meta.TriesCount, meta.To[j]) && tc(meta.TriesCount, meta.To[j]) < 4611686018427387904
+//@   modifies *
+//@   assert-call (*Queue).emitDSN : len(failedRcpts) > 0 && $failedRcpts == failedRcpts && gDSNCalls == old(gDSNCalls) && $meta == meta
+//@   assert-call (*Queue).emitDSN : forall k int, r string :: 0 <= k && k < len(failedRcpts) && r == failedRcpts[k] ==> isFail(partialErr.Errs, r, old(tc(meta.TriesCount, r)), q.maxTries) && meta.RcptErrs[r] != nil
+//@   assert-call (*Queue).emitDSN : forall j int :: 0 <= j && j < len(old(meta.To)) && isFail(partialErr.Errs, old(meta.To)[j], old(tc(meta.TriesCount, meta.To[j])), q.maxTries) ==> (exists k int :: 0 <= k && k < len(failedRcpts) && failedRcpts[k] == old(meta.To)[j])
+//@   assert-call (*Queue).removeFromDisk : len(newRcpts) == 0 && gRemoved == old(gRemoved) && gScheduled == old(gScheduled)
+//@   assert-call (*Queue).updateMetadataOnDisk : $meta == meta && len(newRcpts) > 0 && meta.To == newRcpts && gMetaWrites == old(gMetaWrites)
+//@   assert-call (*TimeWheel).Add : gMetaWrites == old(gMetaWrites) + 1 && gScheduled == old(gScheduled) && gRemoved == old(gRemoved)
+//@   ensures gDSNCalls == old(gDSNCalls) + 1 ==> len(failedRcpts) > 0
+//@   ensures gDSNCalls == old(gDSNCalls) + 1 || !(exists j int :: 0 <= j && j < len(old(meta.To)) && isFail(partialErr.Errs, old(meta.To)[j], old(tc(meta.TriesCount, meta.To[j])), q.maxTries))
+//@   ensures gDSNCalls == old(gDSNCalls) || gDSNCalls == old(gDSNCalls) + 1
+//@   ensures len(newRcpts) == 0 ==> gRemoved == old(gRemoved) + 1 && gScheduled == old(gScheduled)
+//@   ensures len(newRcpts) > 0 ==> gRemoved == old(gRemoved) && gScheduled == old(gScheduled) + 1 && meta.To == newRcpts
+//@   ensures forall k int, r string :: 0 <= k && k < len(newRcpts) && r == newRcpts[k] ==> isRetry(partialErr.Errs, r, old(tc(meta.TriesCount, r)), q.maxTries)
+//@   ensures forall k int, r string :: 0 <= k && k < len(newRcpts) && r == newRcpts[k] ==> tc(meta.TriesCount, r) == old(tc(meta.TriesCount, r)) + 1 && tc(meta.TriesCount, r) < q.maxTries
+//@   ensures forall j int :: 0 <= j && j < len(old(meta.To)) && isRetry(partialErr.Errs, old(meta.To)[j], old(tc(meta.TriesCount, meta.To[j])), q.maxTries) ==> (exists k int :: 0 <= k && k < len(newRcpts) && newRcpts[k] == old(meta.To)[j])
+//@   loop 0 invariant meta.To == old(meta.To) && meta.TriesCount != nil && meta.RcptErrs != nil && meta.MsgMeta == old(meta.MsgMeta) && meta.MsgMeta != nil
+//@   loop 0 invariant gDSNCalls == old(gDSNCalls) && gRemoved == old(gRemoved) && gMetaWrites == old(gMetaWrites) && gScheduled == old(gScheduled)
+//@   loop 0 invariant forall k int, r string :: 0 <= k && k < len(newRcpts) && r == newRcpts[k] ==> isRetry(partialErr.Errs, r, old(tc(meta.TriesCount, r)), q.maxTries)
+//@   loop 0 invariant forall k int, r string :: 0 <= k && k < len(newRcpts) && r == newRcpts[k] ==> tc(meta.TriesCount, r) == old(tc(meta.TriesCount, r)) + 1
+//@   loop 0 invariant forall j int :: 0 <= j && j <= rangeindex && isRetry(partialErr.Errs, meta.To[j], old(tc(meta.TriesCount, meta.To[j])), q.maxTries) ==> (exists k int :: 0 <= k && k < len(newRcpts) && newRcpts[k] == meta.To[j])
+//@   loop 0 invariant forall k int, r string :: 0 <= k && k < len(failedRcpts) && r == failedRcpts[k] ==> isFail(partialErr.Errs, r, old(tc(meta.TriesCount, r)), q.maxTries) && meta.RcptErrs[r] != nil
+//@   loop 0 invariant forall j int :: 0 <= j && j <= rangeindex && isFail(partialErr.Errs, meta.To[j], old(tc(meta.TriesCount, meta.To[j])), q.maxTries) ==> (exists k int :: 0 <= k && k < len(failedRcpts) && failedRcpts[k] == meta.To[j])
+//@   loop 0 invariant forall j int :: rangeindex < j && j < len(meta.To) ==> tc(meta.TriesCount, meta.To[j]) == old(tc(meta.TriesCount, meta.To[j]))
+//@   loop 0 invariant forall k int, j int :: 0 <= k && k < len(newRcpts) && rangeindex < j && j < len(meta.To) ==> newRcpts[k] != meta.To[j]
+//@   loop 0 invariant forall k int, j int :: 0 <= k && k < len(failedRcpts) && rangeindex < j && j < len(meta.To) ==> failedRcpts[k] != meta.To[j]
+//@   loop 0 invariant forall i int, j int :: 0 <= i && i < j && j < len(meta.To) ==> meta.To[i] != meta.To[j]
